@@ -336,6 +336,7 @@ package provider
 //@   ensures C12.destination-check-passed-on-the-decoded-query: answered() ==> adCalls == old(adCalls) + 1 && adOK && adReq == decObj && mdCalls == old(mdCalls) + 1 && adMeta == mdAA
 //@   ensures C12.user-resolved-for-the-queried-subject: answered() ==> aq().Subject.NameID != nil && uiOK && userinfoCalls == old(userinfoCalls) + 1 &&
 //@             uiLogin == aq().Subject.NameID.Text && mqAttrs == uiObj
+//@   ensures C12.every-requested-attribute-is-passed-on: answered() ==> mqQLen == len(aq().Attribute)
 //@   ensures C11,C12.response-built-for-this-query-and-requester: answered() ==> mqReqID == aq().Id && mqEntity == spMeta().EntityID && mqIssuer == idpEntityID(p, r)
 //@   ensures C12,C04.assertion-signed-as-sent: answered() ==> keyOK && aqResp().Assertion.Signature == sigOut && sigOut != nil && signCount == old(signCount) + 1 &&
 //@             signedTag == typetag("saml.AssertionType") && encVer == signedVer + 1 &&
